@@ -92,6 +92,8 @@ def _arr(x):
         return nf.const(int(x))
     if isinstance(x, (list, tuple)):
         raise Undecided("python sequence as array")
+    if isinstance(x, it.IdxArr):
+        return idx_to_val(x)
     raise Undecided(f"{type(x).__name__} as array")
 
 
@@ -369,7 +371,7 @@ def j_dot(I, args, kw):
 
 
 def j_concatenate(I, args, kw):
-    vals = [_arr(a) for a in args[0]]
+    vals = [_arr(a) for a in args[0] if not isinstance(a, EmptyRows)]
     ax = _int(_axis(kw, args, 1, 0))
     return nf.concat(vals, ax)
 
@@ -644,7 +646,7 @@ def r_normal(I, args, kw):
     kname = kt[0][1].f[0][0] if len(kt) == 1 and len(kt[0][1].f) == 1 else None
     if kname is None:
         raise Undecided("derived PRNG key")
-    I.flags.setdefault("prng_calls", []).append((kname, [str(x) for x in shp], I.site))
+    I.flags.setdefault("prng_calls", []).append((kname, [str(x) for x in shp], I.site, [D(x) for x in shp]))
     return nf.atom(f"Normal({kname};{','.join(str(x) for x in shp)})", shp)
 
 
@@ -663,8 +665,8 @@ def j_vmap(I, args, kw):
     fn = args[0]
     in_axes = kw.get("in_axes", args[1] if len(args) > 1 else 0)
     out_axes = kw.get("out_axes", 0)
-    if out_axes != 0:
-        raise Undecided("vmap with out_axes != 0")
+    if not isinstance(out_axes, int) or isinstance(out_axes, bool):
+        raise Undecided("vmap with a non-integer out_axes")
 
     def mapped(*cargs, **ckw):
         if ckw:
@@ -674,6 +676,7 @@ def j_vmap(I, args, kw):
             axes_spec = axes_spec + [axes_spec[-1]] * (len(cargs) - len(axes_spec))
         k = None
         newargs = []
+        unit = []
         for a, ax in zip(cargs, axes_spec):
             if ax is None:
                 newargs.append(a)
@@ -683,15 +686,33 @@ def j_vmap(I, args, kw):
             if not a.axes:
                 raise ShapeError("vmap over a 0-d array")
             A0 = a.axes[0]
+            if len(A0) == 0:
+                unit.append(len(newargs))
+                newargs.append(Val(a.axes[1:], a.terms, kind=a.kind))
+                continue
             if len(A0) != 1:
-                raise Undecided("vmap over a composite or unit axis")
+                raise Undecided("vmap over a composite axis")
             if k is None:
                 k = nf.fresh(nf.size(A0[0]), "v")
             elif nf.size(k) != nf.size(A0[0]):
                 raise ShapeError(f"vmap: mapped axes have sizes {nf.size(k)} and {nf.size(A0[0])}")
             newargs.append(Val(a.axes[1:], [(c, n.rename({A0[0]: k})) for c, n in a.terms], kind=a.kind))
-        if k is None:
+        if k is None and not unit:
             raise Undecided("vmap without a mapped argument")
+        if k is None:
+            # every mapped axis has length one: a single call, the mapped axis is a unit axis of the result
+            res = I.call(fn, newargs, {})
+
+            def lift1(r):
+                if isinstance(r, Val):
+                    pos = out_axes if out_axes >= 0 else len(r.axes) + 1 + out_axes
+                    return Val(list(r.axes[:pos]) + [()] + list(r.axes[pos:]), r.terms, kind=r.kind)
+                if isinstance(r, tuple):
+                    return tuple(lift1(x) for x in r)
+                if it.is_num(r):
+                    return Val([()], [(D(r), nf.Net())])
+                raise Undecided("vmap body returns a non-array")
+            return lift1(res)
         nf.ST.ambient.add(k)
         try:
             res = I.call(fn, newargs, {})
@@ -700,7 +721,10 @@ def j_vmap(I, args, kw):
 
         def lift(r):
             if isinstance(r, Val):
-                return Val([(k,)] + list(r.axes), r.terms, kind=r.kind)
+                pos = out_axes if out_axes >= 0 else len(r.axes) + 1 + out_axes
+                if not 0 <= pos <= len(r.axes):
+                    raise ShapeError(f"vmap out_axes={out_axes} out of range for a result of rank {len(r.axes)}")
+                return Val(list(r.axes[:pos]) + [(k,)] + list(r.axes[pos:]), r.terms, kind=r.kind)
             if isinstance(r, tuple):
                 return tuple(lift(x) for x in r)
             if it.is_num(r):
@@ -708,6 +732,104 @@ def j_vmap(I, args, kw):
             raise Undecided("vmap body returns a non-array")
         return lift(res)
     return it.PyCallable(mapped, "vmapped")
+
+
+class EmptyRows:
+    """an array whose leading axis has length zero (result of a scan over an empty range)"""
+
+    def __repr__(s):
+        return "<empty rows>"
+
+
+def _concrete_range(idx):
+    it = _I()
+    if isinstance(idx, it.IdxArr) and idx.kind == "arange":
+        lo = idx.lo or D(0)
+        if lo.is_const() and idx.size.is_const() and lo.value().denominator == 1 and idx.size.value().denominator == 1:
+            return list(range(int(lo.value()), int(lo.value()) + max(0, int(idx.size.value()))))
+    return None
+
+
+def idx_to_val(idx):
+    """a concrete arange as a constant vector  sum_k (lo+k) e_k"""
+    r = _concrete_range(idx)
+    if r is None or not r:
+        raise Undecided("index array used as a value")
+    return nf.concat([Val([()], nf.const(k).terms) for k in r], 0)
+
+
+def const_rows(v):
+    """v: Val whose entries are constants, leading axis of concrete length n, every other axis of length 1
+    -> list of n Fractions (None when v is not of that form)"""
+    if not isinstance(v, Val) or not v.axes:
+        return None
+    n = v.shape[0]
+    if not n.is_const() or n.value().denominator != 1 or any(not d.is_one() for d in v.shape[1:]):
+        return None
+    n = int(n.value())
+    out = []
+    for k in range(n):
+        row = nf.slice_axis(v, 0, D(k), D(k + 1)) if n > 1 else v
+        nt = nf.normalize(row)
+        if not nt:
+            out.append(D(0).value())
+        elif len(nt) == 1 and not nt[0][1].f and nt[0][0].is_const():
+            out.append(nt[0][0].value())
+        else:
+            return None
+    return out
+
+
+def rows_to_val(vals, like):
+    """constant column with the axes layout of `like` (leading axis n, unit axes behind)"""
+    nd = len(like.axes)
+    return nf.concat([Val([()] * nd, nf.const(c).terms) for c in vals], 0)
+
+
+def l_scan(I, args, kw):
+    """lax.scan over a concrete range: unrolled (the loop variable is a python integer in each iteration)"""
+    it = _I()
+    f = args[0]
+    init = args[1] if len(args) > 1 else kw["init"]
+    xs = args[2] if len(args) > 2 else kw.get("xs")
+    r = _concrete_range(xs)
+    if r is None:
+        raise Undecided("lax.scan over a non-concrete range")
+    carry, ys = init, []
+    for k in r:
+        res = I.call(f, [carry, k], {})
+        if not isinstance(res, tuple) or len(res) != 2:
+            raise PyRaise_("TypeError", "scan body must return (carry, y)")
+        carry, y = res
+        if not isinstance(y, Val):
+            raise Undecided("scan body with a non-array output")
+        ys.append(y)
+    if not ys:
+        return (carry, EmptyRows())
+    return (carry, nf.concat([nf.expand_dims(y, [None] + ["k"] * len(y.axes)) for y in ys], 0))
+
+
+def pow_array_exponent(I, base, e):
+    """base ** e for a constant integer column e (numpy broadcasting of e's leading axis against base)"""
+    rows = const_rows(e)
+    if rows is None:
+        raise Undecided("array power with a non-constant exponent array")
+    base = _arr(base)
+    nd = max(len(base.axes), len(e.axes))
+    if len(base.axes) < nd:
+        base = nf.expand_dims(base, [None] * (nd - len(base.axes)) + ["k"] * len(base.axes))
+    p = nd - len(e.axes)
+    n = len(rows)
+    bs = base.shape[p]
+    if not (bs.is_one() or bs == D(n)):
+        raise ShapeError(f"operands could not be broadcast together: exponent axis {n} vs base axis {bs}")
+    out = []
+    for k, ek in enumerate(rows):
+        if ek.denominator != 1 or ek < 0:
+            raise Undecided("array power with a negative / fractional exponent")
+        bk = base if bs.is_one() else nf.slice_axis(base, p, D(k), D(k + 1))
+        out.append(array_binop(I, ast.Pow(), bk, int(ek)))
+    return out[0] if n == 1 and bs.is_one() else nf.concat(out, p)
 
 
 def not_modelled(name):
@@ -801,7 +923,7 @@ EXT = {
     "jax.scipy.linalg.cho_factor": j_cho_factor, "jax.scipy.linalg.cho_solve": j_cho_solve,
     "jax.random.normal": r_normal, "jax.random.PRNGKey": r_prngkey, "jax.random.key": r_prngkey,
     "jax.lax.stop_gradient": l_stop_gradient,
-    "jax.vmap": j_vmap, "jax.lax.scan": not_modelled("lax.scan"),
+    "jax.vmap": j_vmap, "jax.lax.scan": l_scan,
     "jax.lax.while_loop": not_modelled("lax.while_loop"), "jax.jit": lambda I, a, k: a[0],
     "jax.scipy.stats.norm.pdf": s_norm("pdf"), "jax.scipy.stats.norm.cdf": s_norm("cdf"),
     "jax.scipy.stats.norm.logcdf": s_norm("logcdf"),
@@ -935,6 +1057,8 @@ def array_binop(I, op, l, r):
             if k == 0:
                 out = nf.add(nf.scale(l, 0), out)
             return out
+        if isinstance(r, Val) and r.axes:
+            return pow_array_exponent(I, l, r)
         raise Undecided("array power with non-small-integer exponent")
     if isinstance(op, ast.MatMult):
         l, r = _arr(l), _arr(r)
@@ -956,7 +1080,7 @@ def array_compare(I, op, l, r):
 def index(I, v, key):
     it = _I()
     if isinstance(v, it.IdxArr):
-        raise Undecided("indexing an index array")
+        v = idx_to_val(v)
     nd = len(v.axes)
     # expand ellipsis
     n_consuming = sum(1 for k in key if k[0] in ("slice", "int", "idx"))
